@@ -2416,7 +2416,10 @@ func (w *World) ruleFlagCauses(rule string, d *dkgAnchors) {
 			return sv == `""` || sv == "0" || sv == "false"
 		}
 		first, cnt := "", 0
-		for _, r := range returns(h) {
+		for _, r := range returnsFlat(h) { // the function's own return instructions (virtual per-edge returns have no block)
+			if r.Block() == nil {
+				return ""
+			}
 			if ridx >= len(r.Results) {
 				return ""
 			}
